@@ -350,3 +350,79 @@ func structFieldNames(t types.Type) []string {
 	}
 	return out
 }
+
+// C07.constructor-siblings: every place that builds a wrapper of one type agrees on the fields it sets to a non-zero constant.
+// compactStream needs `first: true` (the first item has no predecessor to be compared with): a second constructor that builds
+// the struct itself and leaves the flag out compares the first item with the zero value - a leading 0 / "" is elided.
+var _ = late(func() {
+	p := properties["C07"]
+	p.Rules = append(p.Rules, &Rule{ID: "C07.constructor-siblings", Floor: 0, Clause: "all composite literals of one unexported wrapper type in iterator / stream set the same fields to non-zero constants (a flag such as first: true that one constructor sets and a sibling constructor omits changes what the first Next does)",
+		Run: func(c *Ctx, r *R) {
+			for _, rel := range []string{"iterator", "stream"} {
+				type lit struct {
+					fn     *ssa.Function
+					al     *ssa.Alloc
+					consts map[string]string // field -> non-zero constant stored
+					set    map[string]bool
+				}
+				byType := map[*types.TypeName][]*lit{}
+				fns := c.funcsOfPkg(rel)
+				sort.Slice(fns, func(i, j int) bool { return c.nameOf(fns[i]) < c.nameOf(fns[j]) })
+				for _, fn := range fns {
+					instrs(fn, func(_ *ssa.BasicBlock, _ int, in ssa.Instruction) {
+						al, ok := in.(*ssa.Alloc)
+						if !ok || al.Comment != "complit" {
+							return
+						}
+						nt, ok := origType(derefType(al.Type())).(*types.Named)
+						if !ok || token.IsExported(nt.Obj().Name()) {
+							return
+						}
+						if _, isStruct := nt.Underlying().(*types.Struct); !isStruct {
+							return
+						}
+						l := &lit{fn: fn, al: al, consts: map[string]string{}, set: map[string]bool{}}
+						for _, ref := range refsOf(al) {
+							fa, ok := ref.(*ssa.FieldAddr)
+							if !ok {
+								continue
+							}
+							for _, r2 := range refsOf(fa) {
+								st, ok := r2.(*ssa.Store)
+								if !ok || st.Addr != ssa.Value(fa) {
+									continue
+								}
+								f := fieldName(fa.X.Type(), fa.Field)
+								l.set[f] = true
+								if k, ok := st.Val.(*ssa.Const); ok && k.Value != nil && !isZeroValue(k) {
+									l.consts[f] = k.Value.String()
+								}
+							}
+						}
+						byType[nt.Obj()] = append(byType[nt.Obj()], l)
+					})
+				}
+				var names []*types.TypeName
+				for tn := range byType {
+					names = append(names, tn)
+				}
+				sort.Slice(names, func(i, j int) bool { return names[i].Name() < names[j].Name() })
+				for _, tn := range names {
+					ls := byType[tn]
+					if len(ls) < 2 {
+						continue
+					}
+					for _, a := range ls {
+						for f, kv := range a.consts {
+							for _, b := range ls {
+								if b == a {
+									continue
+								}
+								r.ok(b.consts[f] == kv, rel+"."+tn.Name()+"."+f+"|"+c.nameOf(b.fn), b.al.Pos(), c.nameOf(a.fn)+" builds a "+tn.Name()+" with "+f+": "+kv+", "+c.nameOf(b.fn)+" builds one without it: the two constructors hand out wrappers that start in different states")
+							}
+						}
+					}
+				}
+			}
+		}})
+})
